@@ -54,3 +54,25 @@ def register(op):
             return {"ops": [list(t) for t in f(bytes.fromhex(a["code"]), opc)]}
         except Exception as e:  # noqa
             return {"err": type(e).__name__}
+
+
+def register_se(op):
+    @op
+    def stack_effects(a):
+        from xdis.cross_dis import xstack_effect
+        opc = _tbl(a["table"])
+        out = []
+        for o, arg in a["pairs"]:
+            try:
+                out.append(xstack_effect(o, opc, arg) if arg is not None else xstack_effect(o, opc))
+            except Exception as e:  # noqa
+                out.append("err:" + type(e).__name__)
+        return out
+
+
+_reg_dec = register
+
+
+def register(op):  # noqa: F811
+    _reg_dec(op)
+    register_se(op)
